@@ -65,7 +65,7 @@ func gen(t *rapid.T) Scenario {
 	sc := Scenario{Ops: rapid.SliceOfN(rapid.Custom(genOp), 1, 24).Draw(t, "ops")}
 	if rapid.IntRange(0, 59).Draw(t, "powerOfTwo") == 0 {
 		// a sequence whose length sits at a power of two (block sizes, chunked or parallel folds), folded several times
-		n := rapid.SampledFrom([]int{64, 64, 256, 256, 1024, 1024, 4096, 4096, 8192}).Draw(t, "pow") + rapid.IntRange(-1, 1).Draw(t, "off")
+		n := rapid.SampledFrom([]int{64, 64, 256, 256, 1024, 1024, 4096, 4096, 8192, 16384, 32768}).Draw(t, "pow") + rapid.IntRange(-1, 1).Draw(t, "off")
 		at := rapid.IntRange(0, len(sc.Ops)).Draw(t, "at")
 		ins := []Op{{Kind: "new", Long: n, Stride: rapid.IntRange(1, 13).Draw(t, "stride")}}
 		for k := 0; k < 4; k++ {
